@@ -784,6 +784,23 @@ func (env *Env) elabCall(x *ECall) Val {
 			return Val{T: types.Typ[types.Bool], S: fmt.Sprintf("(>= (rootof %s) %s)", a.S, env.freshBase)}
 		}
 		fail("fresh() needs a slice or pointer")
+	case name == "sameobject":
+		// sameobject(a, b): the pointers / slices / interface-held pointers lie in the same allocated object
+		root := func(x Expr) string {
+			v := env.elab(x)
+			switch v.T.Underlying().(type) {
+			case *types.Pointer:
+				return fmt.Sprintf("(rootof %s)", v.S)
+			case *types.Slice:
+				return fmt.Sprintf("(rootof (sbase %s))", v.S)
+			case *types.Interface:
+				c.declareFun("unbox_Loc", []string{"Iface"}, "Loc")
+				return fmt.Sprintf("(rootof (unbox_Loc %s))", v.S)
+			}
+			fail("sameobject() needs pointers, slices or interfaces")
+			return ""
+		}
+		return Val{T: types.Typ[types.Bool], S: fmt.Sprintf("(= %s %s)", root(x.Args[0]), root(x.Args[1]))}
 	case name == "hasprefix":
 		// hasprefix(s, p): strings.HasPrefix(s, p), the same uninterpreted relation the encoder uses
 		a, b := env.elab(x.Args[0]), env.elab(x.Args[1])
